@@ -103,6 +103,25 @@ pub struct Dates {
     od: Option<Date>,
 }
 
+/// every integer width and f32, at the boundaries of its range (u64 / usize only up to i64::MAX: beyond that
+/// every route refuses)
+#[derive(Serialize, Deserialize, Debug, PartialEq, Clone)]
+pub struct Ints {
+    u: u64,
+    us: usize,
+    i: i64,
+    a: u32,
+    b: i32,
+    c: u16,
+    d: i16,
+    e: u8,
+    g: i8,
+    x: f32,
+    list: Vec<u64>,
+    o: Option<u64>,
+    m: BTreeMap<String, u64>,
+}
+
 /// the reduced witness of F7
 #[derive(Serialize, Deserialize, Debug, PartialEq, Clone)]
 pub struct S {
@@ -136,7 +155,7 @@ macro_rules! canon_debug {
         }
     )*};
 }
-canon_debug!(Config, Plain, Dates, S, Owner, Mode, Datetime, Date, Time, i64, String, Vec<i64>, f64, bool, Pt);
+canon_debug!(Config, Plain, Dates, Ints, S, Owner, Mode, Datetime, Date, Time, i64, String, Vec<i64>, f64, bool, Pt);
 
 /// the sign and payload of a NaN are not TOML data: comparisons of decoded trees use the canonical NaN
 fn norm_nan(v: &toml::Value) -> toml::Value {
@@ -253,6 +272,7 @@ fn with_target_doc(target: &str, text: &str) -> Option<Vec<(&'static str, Option
         "config" => doc_routes::<Config>(text),
         "plain" => doc_routes::<Plain>(text),
         "dates" => doc_routes::<Dates>(text),
+        "ints" => doc_routes::<Ints>(text),
         "s" => doc_routes::<S>(text),
         "owner" => doc_routes::<Owner>(text),
         _ => return None,
@@ -421,6 +441,28 @@ fn g_plain(r: &mut Rng) -> Plain {
         last: g_str(r),
     }
 }
+const U64S: &[u64] = &[0, 1, 255, 256, 65535, 65536, u32::MAX as u64, 1 << 32, 1 << 53, (1 << 53) + 1, (i64::MAX - 1) as u64, i64::MAX as u64];
+const F32S: &[f32] = &[0.0, -0.0, 1.0, 1.1, -2.5, 0.1, 1e10, 3.4028235e38, 1.1754944e-38, 1e-45, 16777216.0, 16777217.0, f32::INFINITY, f32::NEG_INFINITY];
+fn g_u64(r: &mut Rng) -> u64 {
+    *r.pick(U64S)
+}
+fn g_ints(r: &mut Rng) -> Ints {
+    Ints {
+        u: g_u64(r),
+        us: g_u64(r) as usize,
+        i: *r.pick(INTS),
+        a: *r.pick(&[0, 1, u32::MAX, u32::MAX - 1, 65536]),
+        b: *r.pick(&[0, -1, i32::MAX, i32::MIN]),
+        c: *r.pick(&[0, 1, u16::MAX]),
+        d: *r.pick(&[0, -1, i16::MAX, i16::MIN]),
+        e: *r.pick(&[0, 1, 127, 128, u8::MAX]),
+        g: *r.pick(&[0, -1, i8::MAX, i8::MIN]),
+        x: *r.pick(F32S),
+        list: g_vec(r, 3, g_u64),
+        o: g_opt(r, g_u64),
+        m: (0..r.below(3)).map(|_| (r.pick(KEYS).to_string(), g_u64(r))).collect(),
+    }
+}
 fn g_dates(r: &mut Rng) -> Dates {
     Dates { d: g_date(r), t: g_time(r), dt: g_dt(r), list: g_vec(r, 3, g_dt), od: g_opt(r, g_date) }
 }
@@ -541,6 +583,7 @@ fn with_type_val(ty: &str, seed: u64, c17: bool) -> String {
         "config" => go!(g_config(&mut r)),
         "plain" => go!(g_plain(&mut r)),
         "dates" => go!(g_dates(&mut r)),
+        "ints" => go!(g_ints(&mut r)),
         "s" => go!(S { when: if seed == 0 { "1979-05-27T07:32:00Z".parse().unwrap() } else { g_dt(&mut r) } }),
         "owner" => go!(Owner { name: g_str(&mut r), dob: g_opt(&mut r, g_dt) }),
         _ => "bad-type".into(),
